@@ -1,6 +1,6 @@
 import importlib
 
-MODULES = ['traversal', 'equality', 'payload', 'locks', 'registry_cxx', 'safety', 'py_ops', 'py_registry', 'twins', 'py_misc', 'matrix']
+MODULES = ['traversal', 'equality', 'payload', 'locks', 'registry_cxx', 'safety', 'py_ops', 'py_registry', 'twins', 'py_misc', 'matrix', 'prefix', 'extra']
 
 
 def load_all():
